@@ -302,6 +302,9 @@ func (s *Scen) attHistories(tier string, rng *rand.Rand) []*History {
 	if tier == "thorough" {
 		nHonest, nCorrupt = 400, 30
 	}
+	if s.Name == "p0lag" {
+		nHonest, nCorrupt = 6, 1
+	}
 	if s.Big {
 		nHonest, nCorrupt = nHonest/2, 2
 	}
